@@ -725,6 +725,7 @@ def run(ctx):
         "the syllabic shapers (Indic, USE, Khmer, Myanmar) are not modelled in Lean: for them the property rests on this search only",
         "C08_default_shaper_conserves is about RbModel/Pipeline.lean (default shaper, fonts without layout tables), tied to the crate by the pipeline-shape stream",
         "C08_hebrew_compose_canonical / C08_shaper_callbacks_canonical are about the answers of the shapers' own compose / decompose callbacks as probed on the compiled crate (Gen/HebrewCompose.lean, Gen/ShaperCallbacks.lean: hook verif::normalize::probe_compose / probe_decompose) over the blocks of their scripts, judged against CPython's canonical data (Gen/NormRef.lean); the same answers are shaped by the callback-compositions search",
+        "C08_decompose_current_conserves is about Norm.decomposeCurrentCharacter (RbModel/Norm.lean: decompose / decompose_current_character in both modes), tied to the crate by the norm-run-lattice stream (hook verif::normalize::normalize_vs, every normalization preference, lattice requests of tools/props/_lattice.py); the support-lattice search carries the same statement through shape() for every shaper",
         "C08_vs_round_keeps / C08_vs_round_chars are about Norm.vsLoop (RbModel/Norm.lean: handle_variation_selector_cluster with cmap format 14 as a parameter), tied to the crate by the norm-run-selectors stream (hook verif::normalize::normalize_vs)",
     ]
     ctx.regen()
@@ -748,6 +749,12 @@ def run(ctx):
     # its normalization can depend on x every shaper, on fonts that map every character of the text
     env = L.Env(shim)
     L.promote_norm_run(ctx, shim, env, dis, ctx.budget(40, 300), [L.judge_conservation], "norm-run-selectors")
+    # C08_decompose_current_conserves is a statement about Norm.decomposeCurrentCharacter in every mode: its tie to the crate
+    # is the same protocol on lattice requests (multi-level decompositions on fonts with partial support)
+    dis2 = ctx.correspond("norm-run-lattice", lines=L.lattice_run_lines(ctx.rng("norm-lattice"), ctx.budget(6000, 150000), 1),
+                          classify=C09.classify_run)
+    if dis2:
+        L.promote_norm_run(ctx, shim, env, dis2, ctx.budget(40, 300), [L.judge_conservation], "norm-run-lattice")
     L.search(ctx, shim, env, ctx.rng("lattice"), ("decomposable", "plain"),
              lambda c, S, text, tag: all(x in S for x in text), [L.judge_conservation], LATTICE_RULE)
     recomposed_witness(ctx, shim)
